@@ -293,8 +293,12 @@ def extract(unit, ex):
             frag = R.r10_result_unfold(frag, st)
         if cfg.get("question"):
             frag = R.r11_question(frag, st, cfg.get("question_from", "vx_from"))
+        if cfg.get("vec_idioms"):
+            frag = R.r10_vec_idioms(frag, st)
         if cfg.get("option_unfold"):
-            frag = R.r10_option_unfold(frag, st)
+            # `.map(` is ambiguous with Iterator::map at the token level: unfolded only where the unit says the receiver is an Option
+            which = ("map_or", "map_or_else") + (("map",) if cfg.get("option_unfold_map") else ())
+            frag = R.r10_option_unfold(frag, st, which)
         if cfg.get("drop_nested_fns"):
             frag = R.drop_nested_fns(frag, st)
         if cfg.get("array_idioms"):
@@ -380,12 +384,16 @@ def splice_closures(frag, ov, info):
             ins.append((e, [Tok("c", "}", None, 0, True)]))
             ins.append((b, [Tok("o", "{", None, 0, True)]))
         txt = " ".join(text.split())
+        # an obligation tag `/* OBL:id */` survives as an inline comment token
+        tag = re.search(r"/\*\s*OBL:[^*]*\*/", txt)
+        code = T(txt.replace(tag.group(0), "") if tag else txt)
+        if tag: code.append(Tok("cmt", tag.group(0), None, 0, True))
         if txt.startswith("|"):
             # the clause restates the (typed) parameter list: replace `|params|`
             ins.append((i, "DEL", pe + 1))
-            ins.append((i, T(txt)))
+            ins.append((i, code))
         else:
-            ins.append((pe + 1, T(txt)))
+            ins.append((pe + 1, code))
     info["closures"] = len(cs)
     # apply from the right; at equal positions insertions were appended in the order they must appear right-to-left
     for item in sorted(ins, key=lambda x: -x[0]):
@@ -552,6 +560,26 @@ def structural_checks(unit):
     import glob as _glob
     res = []
     for sc in unit.get("structural", []):
+        if "count_in_fn" in sc:
+            # exactly `expect` occurrences of the token sequence inside the body of fn `count_in_fn` of one file
+            src = Source.get(sc["file"])
+            toks, m = src.toks, src.m
+            try:
+                if sc.get("impl"):
+                    lo, hi = R.find_impl(toks, m, sc["impl"])
+                    s0, bo, bc = R.find_fn(toks, m, sc["count_in_fn"], lo + 1, hi)
+                else:
+                    s0, bo, bc = R.find_fn_anywhere(toks, m, sc["count_in_fn"])
+            except ExtractError as e:
+                res.append({"id": sc["id"], "ok": False, "detail": str(e), "why": sc.get("why", ""), "lost": True}); continue
+            if sc.get("token_regex"):
+                n = len([1 for t in toks[bo:bc] if t.k == "id" and re.fullmatch(sc["token_regex"], t.s)])
+                sc = dict(sc, pattern="/" + sc["token_regex"] + "/")
+            else:
+                n = len(find_all_seq(toks, pat(sc["pattern"]), bo, bc))
+            res.append({"id": sc["id"], "ok": n == sc["expect"], "detail": "%d occurrence(s) of `%s` in fn %s of %s (expected %d)" % (n, sc["pattern"], sc["count_in_fn"], sc["file"], sc["expect"]),
+                        "why": sc.get("why", ""), "lost": False})
+            continue
         files = sorted(_glob.glob(os.path.join(repo_root(), sc["glob"]), recursive=True))
         bad, seen = [], 0
         p = pat(sc["pattern"])
